@@ -1,4 +1,6 @@
 import PlzVerif.Lemmas.BuildCache
+import PlzVerif.Lemmas.BuildCacheKey
+import PlzVerif.Model.BuildE2E
 import PlzVerif.Model.BuildFacts
 import PlzVerif.Model.Collapse
 import PlzVerif.Generated.C02
@@ -8,7 +10,9 @@ C02  Cache restores are indistinguishable from building.
 `C02_main_if_injective`: for every history of cached builds, removals from plz-out (`rm -rf plz-out` included) and cache
 evictions, the final build gives each requested target its clean-build output — conditional, like C01, on the
 injectivity of the rule/path pre-images, and with the cache key (`CollapseHash` of the stamp digests) idealised as
-injective on the stamp.  The `collapse_*` theorems are about the regenerated transcription of `CollapseHash`:
+injective on the stamp.  `C02_main_keyed` makes that idealisation an explicit hypothesis (`Function.Injective keyOf`
+for an arbitrary key function), `C02_witness_key_collision` shows it is needed and `C02_keyXor_not_injective` that the
+XOR fold alone does not provide it.  The `collapse_*` theorems are about the regenerated transcription of `CollapseHash`:
 every stamp component reaches the key, and the XOR fold is not injective in general (recorded caveat).
 -/
 namespace PlzVerif.Props.C02
@@ -48,6 +52,105 @@ theorem C02_main_if_injective (hR : Function.Injective ruleSer) (hP : Function.I
     (by intro k hk; simp at hk) hwf
   intro k hk
   exact h.2.2.2 k (by simpa using hk)
+
+-- non-vacuity of `C02_no_wrong_restore`: a cache with one entry that satisfies the invariant, and a hit on it
+example : InvC (K := Nat) (N := Nat) (C := Nat) (fun (a : Nat) (ins : List (Nat × Nat)) => a + (ins.map (·.2)).sum) id id
+      (fun q => if q = (0, ⟨3, [(1, 4)]⟩) then some 7 else none) ∧
+    (fun q => if q = ((0 : Nat), (⟨3, [(1, 4)]⟩ : Stamp Nat Nat Nat)) then some 7 else none)
+      (0, stampOf id id 3 [(1, 4)]) = some 7 := by
+  refine ⟨?_, by decide⟩
+  intro k st c h
+  by_cases hq : (k, st) = (0, ⟨3, [(1, 4)]⟩)
+  · simp [hq] at h; obtain ⟨rfl, rfl⟩ := Prod.mk.inj hq
+    exact ⟨3, [(1, 4)], rfl, by rw [← h]; decide⟩
+  · simp [hq] at h
+
+/-! ### The cache key as a function -/
+
+/-- **C02 with the key made explicit.**  `keyOf` is whatever maps (label, stamp) to the slot an artifact is filed
+    under (`mustShortTargetHash` = `CollapseHash` of the four digests).  If it separates distinct target states —
+    `Function.Injective keyOf`, now a hypothesis and no longer a property of the model's types — then after every
+    history of cached builds, removals and evictions the final build gives each requested target its clean-build
+    output (conditional on the two pre-image hypotheses like `C02_main_if_injective`). -/
+theorem C02_main_keyed {Q : Type} [DecidableEq Q] (keyOf : K × Stamp S N H → Q) (hKey : Function.Injective keyOf)
+    (hR : Function.Injective ruleSer) (hP : Function.Injective pathSer)
+    (history : List (HOpCK K A F N C Q)) (r : Repo K A F N C) (sel : K → Bool) (hwf : WFList sel [] r.targets) :
+    let s := runHistCK keyOf generatedFacts (mvCoded generatedFacts pathSer) rsCoded exec ruleSer pathSer history
+      (fun _ => none, fun _ => none)
+    ∀ k ∈ selKeys sel r.targets, ∃ c st,
+      (buildCK keyOf generatedFacts (mvCoded generatedFacts pathSer) rsCoded exec ruleSer pathSer r sel s.1 s.2).1 k = some (c, st) ∧
+      (clean exec r sel).lookup k = some c := by
+  intro s
+  have hsim := runHistCK_sim keyOf generatedFacts (mvCoded generatedFacts pathSer) rsCoded exec ruleSer pathSer hKey history
+    (fun _ => none) (fun _ => none)
+  simp only at hsim
+  have hb := buildListCK_sim keyOf generatedFacts (mvCoded generatedFacts pathSer) rsCoded exec ruleSer pathSer hKey r sel
+    r.targets s.1 s.2
+  simp only at hb
+  have hmain := C02_main_if_injective exec ruleSer pathSer hR hP (histOf keyOf history) r sel hwf
+  simp only at hmain
+  have hempty : cacheOf keyOf (fun (_ : Q) => (none : Option C)) = (fun (_ : K × Stamp S N H) => none) := rfl
+  rw [hempty] at hsim
+  rw [← hsim] at hmain
+  intro k hk
+  obtain ⟨c, st, h1, h2⟩ := hmain k hk
+  refine ⟨c, st, ?_, h2⟩
+  have e : (buildCK keyOf generatedFacts (mvCoded generatedFacts pathSer) rsCoded exec ruleSer pathSer r sel s.1 s.2).1 =
+      (buildC generatedFacts (mvCoded generatedFacts pathSer) rsCoded exec ruleSer pathSer r sel s.1 (cacheOf keyOf s.2)).1 := by
+    have := congrArg Prod.fst hb
+    simpa [buildCK, buildC] using this
+  rw [e]; exact h1
+
+namespace KeyWitness
+/-- one target reading one source file; the action copies the file's content -/
+def tgt : Target Nat Nat Nat := ⟨0, 0, [0], []⟩
+def repo (v : Nat) : Repo Nat Nat Nat Nat Nat := { files := fun _ => v, fname := id, outName := id, targets := [tgt] }
+def execK (_a : Nat) (ins : List (Nat × Nat)) : Nat := (ins.map (·.2)).sum
+/-- a key that forgets the stamp (the extreme case of a non-injective `CollapseHash`) -/
+def labelOnly (p : Nat × Stamp Nat Nat Nat) : Nat := p.1
+def all : Nat → Bool := fun _ => true
+end KeyWitness
+
+open KeyWitness in
+/-- `Function.Injective keyOf` is needed: with a key that does not separate two states of a target, the artifact
+    built from source content 1 is restored — after `rm -rf plz-out` — for source content 2. -/
+theorem C02_witness_key_collision :
+    let s := runHistCK labelOnly generatedFacts (mvCoded generatedFacts id) rsCoded execK id id
+      [.build (repo 1) all, .remove (fun _ => false)] (fun _ => none, fun _ => none)
+    ((buildCK labelOnly generatedFacts (mvCoded generatedFacts id) rsCoded execK id id (repo 2) all s.1 s.2).1 0).map Prod.fst = some 1 ∧
+    (clean execK (repo 2) all).lookup 0 = some 2 := by decide
+
+/-! ### Lean witnesses of the two known findings of the corpus -/
+
+namespace PoisonWitness
+abbrev Dir := List (Nat × Nat)
+def pserBad (d : Dir) : List Nat := d.map (·.2)
+def execW (_a : Nat) (ins : List (Nat × Dir)) : Dir := ((ins.map (·.2)).flatten.map (·.1)).map (fun n => (n, 7))
+def tgt : Target Nat Nat Nat := ⟨0, 0, [0], []⟩
+def repo1 : Repo Nat Nat Nat Nat Dir := { files := fun _ => [(1, 0), (2, 0)], fname := id, outName := id, targets := [tgt] }
+def repo2 : Repo Nat Nat Nat Nat Dir := { files := fun _ => [(1, 0), (9, 0)], fname := id, outName := id, targets := [tgt] }
+def all : Nat → Bool := fun _ => true
+end PoisonWitness
+
+open PoisonWitness in
+/-- `dir-hash-poisons-cache` (corpus/C02/known-dir-hash-poisons-cache.ops): with the directory pre-image as coded
+    (contents only), building names `a b`, renaming to `a z` and building again re-runs the action, `moveOutput` keeps
+    the OLD directory, and that tree is stored under the NEW key.  After `rm -rf plz-out` the next build of the same
+    tree is a cache HIT that restores `a b`; a clean build has `a z`. -/
+theorem C02_witness_dir_hash_poisons_cache :
+    let s := runHistC generatedFacts (mvCoded generatedFacts pserBad) rsCoded execW id pserBad
+      [.build repo1 all, .build repo2 all, .remove (fun _ => false)] (fun _ => none, fun _ => none)
+    let res := buildC generatedFacts (mvCoded generatedFacts pserBad) rsCoded execW id pserBad repo2 all s.1 s.2
+    (res.1 0).map Prod.fst = some [(1, 7), (2, 7)] ∧ res.2.2 = [] ∧
+    (clean execW repo2 all).lookup 0 = some [(1, 7), (9, 7)] := by decide
+
+/-- `aba-optional-output-metadata` (lingering optional output on restore): restoring as coded (`rsE2E`) does not
+    remove an optional output the restored entry does not have, so it violates the hypothesis `∀ o n, rs o n = n`
+    under which the cache lemmas hold. -/
+theorem C02_witness_restore_lingers : ¬ ∀ o n, PlzVerif.BuildE2E.rsE2E o n = n := by
+  intro h
+  have := h (.fileOpt "a" (some "a")) (.fileOpt "" none)
+  simp [PlzVerif.BuildE2E.rsE2E, PlzVerif.BuildE2E.extraOf] at this
 
 /-! ### CollapseHash -/
 
@@ -114,6 +217,17 @@ theorem C02_collapse_not_injective :
       collapseList C02.collapseEqualBranch C02.collapseElseBranch k' :=
   ⟨List.replicate 40 0 ++ List.replicate 20 1 ++ List.replicate 20 2,
    List.replicate 40 0 ++ List.replicate 20 2 ++ List.replicate 20 1, by decide, by decide, by decide, by decide⟩
+
+/-- … hence the key function the code uses — the XOR fold of the four digests — is NOT injective by itself:
+    `C02_main_keyed`'s hypothesis `Function.Injective keyOf` is an assumption about the digests that go in (they
+    would have to collide after a swap), not something the fold provides. -/
+theorem C02_keyXor_not_injective :
+    ¬ Function.Injective (fun k : {l : List Nat // l.length = 80} =>
+        collapseList C02.collapseEqualBranch C02.collapseElseBranch k.1) := by
+  intro h
+  obtain ⟨k, k', h1, h2, hne, he⟩ := C02_collapse_not_injective
+  have := @h ⟨k, h1⟩ ⟨k', h2⟩ he
+  exact hne (congrArg Subtype.val this)
 
 -- non-vacuity of C02_collapse_sensitive's hypotheses
 example : ∃ key key' : Nat → Nat, (∀ j, j ≠ 3 + 2 * blockSize → key' j = key j) ∧ key' (3 + 2 * blockSize) ≠ key (3 + 2 * blockSize) :=
